@@ -905,5 +905,5 @@ func gen(t *rapid.T) Case {
 }
 
 func TestRegeneration(t *testing.T) {
-	vfrun.Run(t, vfrun.Prop[Case]{Property: "C19", Name: "TestRegeneration", Gen: gen, Check: check}, vfrun.N(64, 900))
+	vfrun.Run(t, vfrun.Prop[Case]{Property: "C19", Name: "TestRegeneration", Gen: gen, Check: check}, vfrun.N(80, 1000))
 }
